@@ -96,6 +96,25 @@ def run_controls():
     o = Obligations('CTL')
     putmask_values(ctx, o, prefix='ctl2.')
     expect('putmask', o, 'API', 'np.putmask(out')
+    o = Obligations('CTL')
+    sweeps.tolerance_selection(ctx, o, ['ctl2.'])
+    expect('tol-select', o, 'TOL', 'matched by equality')
+    if any(x.verdict == VIOLATED and x.func == 'ctl2.sanity_within_tolerance' for x in o.items):
+        bad.append('TOL fired on a tolerance test that only feeds a decision')
+    n += 1
+    o = Obligations('CTL')
+    sweeps.lost_store(ctx, o, ['ctl2.'])
+    expect('lost-store', o, 'LOST-STORE', 'a store reaches the array')
+    if any(x.verdict == VIOLATED and x.func == 'ctl2.store_into_view' for x in o.items):
+        bad.append('LOST-STORE fired on a store through a view')
+    n += 1
+    from .rules.condensed import condensed_index
+    o = Obligations('CTL')
+    condensed_index(ctx, o, ['ctl2.'], sweeps._in_scope)
+    expect('condensed', o, 'CONDENSED', 'is used for ordered pairs')
+    if any(x.verdict == VIOLATED and x.func == 'ctl2.condensed_ordered' for x in o.items):
+        bad.append('CONDENSED fired on pairs taken straight from triu_indices')
+    n += 1
     for extra in _extra_controls:
         extra(ctx, expect)
     return n, bad
